@@ -17,7 +17,7 @@ class C19(BaseCheck):
           'children deleted and back, wholly or partly under the same names, within a read round trip, so an old '
           'children watch survives while the data watch sees the path missing), member restarts (node deleted, '
           'new node with a fresh name and the same endpoint data, in one listing or two; judged through a second '
-          'consumer keyed by endpoint, as the load balancers are), consumer callbacks raising on a '
+          'consumer keyed by endpoint, as the load balancers are), consumer callbacks raising (and, in every 6th case, taking 5-31 s) on a '
           'seeded schedule, concurrent '
           'get_members() iterations. At every quiescent point (no watch event pending, no read in flight, '
           'notification queue empty) the consumer\'s set - joins and leaves applied in delivery order - must '
@@ -31,7 +31,7 @@ class C19(BaseCheck):
              'scales.loadbalancer.zookeeper:ServerSet._safe_zk_node_to_member')
   REQUIRED_ANCHORS = ANCHORS
   REQUIRED_CLASSES = ('parent-deleted', 'parent-recreated-same-names', 'parent-recreated-different-names',
-                      'callback-raised', 'burst', 'non-member-child', 'path-created-later', 'vanished-before-read', 'fast-recreate',
+                      'callback-raised', 'callback-slow', 'burst', 'non-member-child', 'path-created-later', 'vanished-before-read', 'fast-recreate',
                       'same-name-recreated', 'blip', 'restart-same-endpoint',
                       'blip:names-taken-by-other-servers', 'tuple-members')
   ASSUMPTIONS = ('member znodes get fresh sequential names within one incarnation of the watched path (as '
@@ -84,6 +84,17 @@ class C19(BaseCheck):
     log = []
     raise_p = rng.choice([0.0, 0.0, 0.1, 0.3])
     stats = {'joins': 0, 'leaves': 0, 'callback_errors': 0}
+    slow = idx % 6 == 3        # a consumer whose callbacks now and then take several seconds
+    busy = [0]
+
+    def maybe_slow():
+      if slow and rng.random() < 0.08:
+        classes.add('callback-slow')
+        busy[0] += 1
+        try:
+          gevent.sleep(rng.choice([5.5, 8.0, 31.0]))
+        finally:
+          busy[0] -= 1
 
     def viol(kind_, msg, facts=None, witness=None):
       f = {'latency': lat_cls}
@@ -102,6 +113,7 @@ class C19(BaseCheck):
       consumer[m.name] = (m.service_endpoint.host, m.service_endpoint.port)
       # a second consumer that, like the load balancers, knows members by their endpoint
       by_endpoint.setdefault(consumer[m.name], m.name)
+      maybe_slow()
       if rng.random() < raise_p:
         stats['callback_errors'] += 1
         classes.add('callback-raised')
@@ -115,6 +127,7 @@ class C19(BaseCheck):
         viol('alternation:double-leave', 'member %s reported as leaving while the consumer does not hold it' % m.name)
       consumer.pop(m.name, None)
       by_endpoint.pop((m.service_endpoint.host, m.service_endpoint.port), None)
+      maybe_slow()
       if rng.random() < raise_p:
         stats['callback_errors'] += 1
         classes.add('callback-raised')
@@ -144,11 +157,11 @@ class C19(BaseCheck):
       return t
 
     def quiesce():
-      for _ in range(200):
+      for _ in range(200 if not slow else 3000):
         env.advance(0.12)
-        if zk.quiet() and ss._notification_queue.empty():
+        if zk.quiet() and ss._notification_queue.empty() and not busy[0]:
           env.advance(0.12)
-          if zk.quiet() and ss._notification_queue.empty():
+          if zk.quiet() and ss._notification_queue.empty() and not busy[0]:
             return True
       return False
 
